@@ -381,7 +381,7 @@ def check_surface(case, o, single_centres=True):
                 out.append(("result/centres", "new vertex %d is neither a midpoint nor a barycentre of earlier vertices" % i))
                 break
     if not o["res_conn_ok"]:
-        out.append(("result/stale-connectivity", "connectivity answers of the result do not describe the refined mesh"))
+        out.append(("result/stale-connectivity", "connectivity answers of the result do not describe the refined mesh" + (" (accessors differing from a mesh rebuilt from the element lists: %s)" % ", ".join(o["res_conn_diff"]) if o.get("res_conn_diff") else "")))
     check_arg(case, o, ["V", "E", "F", "corn"], out)
     return out
 
@@ -439,7 +439,7 @@ def check_split_double(case, o):
         if a0 != a1 or n1 is not None:
             out.append(("result/area", "total area changed from %s to %s" % (a0, a1)))
     if not o["res_conn_ok"] or not o.get("res_boundary_ok", True):
-        out.append(("result/stale-connectivity", "connectivity / boundary answers of the returned mesh do not describe the refined mesh"))
+        out.append(("result/stale-connectivity", "connectivity / boundary answers of the returned mesh do not describe the refined mesh" + (" (accessors differing from a mesh rebuilt from the element lists: %s)" % ", ".join(o["res_conn_diff"]) if o.get("res_conn_diff") else "")))
     check_arg(case, o, ["V", "E", "F", "corn"], out)
     return out
 
@@ -505,7 +505,7 @@ def check_polyline(case, o):
     if abs(l0 - l1) > 1e-9 * (1 + l0):
         out.append(("result/length", "total length changed from %r to %r" % (l0, l1)))
     if not o["res_conn_ok"]:
-        out.append(("result/stale-connectivity", "connectivity answers of the returned polyline do not describe the refined polyline"))
+        out.append(("result/stale-connectivity", "connectivity answers of the returned polyline do not describe the refined polyline" + (" (accessors differing from a mesh rebuilt from the element lists: %s)" % ", ".join(o["res_conn_diff"]) if o.get("res_conn_diff") else "")))
     check_arg(case, o, ["V", "E"], out)
     return out
 
@@ -643,12 +643,14 @@ def check_volume(case, o):
             res["ccorn"] != [[v, i] for i, c in enumerate(C1) for v in c]:
         out.append(("result/corners", "corner containers do not enumerate the faces / cells"))
     if not o["res_conn_ok"]:
-        out.append(("result/stale-connectivity", "connectivity answers of the result do not describe the refined mesh"))
+        out.append(("result/stale-connectivity", "connectivity answers of the result do not describe the refined mesh" + (" (accessors differing from a mesh rebuilt from the element lists: %s)" % ", ".join(o["res_conn_diff"]) if o.get("res_conn_diff") else "")))
     check_arg(case, o, ["V", "E", "F", "C", "corn", "ccorn"], out)
     return out
 
 
 def check(case, o):
+    if o.get("unswept") or (o.get("after") or {}).get("unswept"):
+        return [("harness/accessor", "public accessors the sweep does not know how to call: %s" % (o.get("unswept") or o["after"].get("unswept")))]
     if o.get("status") == "driver-error":
         return [("harness/driver", "the driver could not build the input: " + o.get("err", "?"))]
     k = case["kind"]
